@@ -34,6 +34,13 @@ type Sys interface {
 	Close()
 }
 
+// Finisher is optionally implemented by a Sys: Finish runs once at the end of every executed history
+// (after its last Apply), for oracles that must not disturb the object under test while the history is
+// still running (e.g. forcing a lazily built buffer).
+type Finisher interface {
+	Finish() *Violation
+}
+
 type Config struct {
 	Name       string
 	NumOps     int
@@ -93,6 +100,11 @@ func (c *Config) Replay(h []int) (int, *Violation) {
 	for i, op := range h {
 		if v := s.Apply(op); v != nil {
 			return i, v
+		}
+	}
+	if f, ok := s.(Finisher); ok {
+		if v := f.Finish(); v != nil {
+			return len(h) - 1, v
 		}
 	}
 	return -1, nil
@@ -211,6 +223,13 @@ func Run(c *Config) *Result {
 						if viol != nil {
 							at = j
 							break
+						}
+					}
+					if viol == nil {
+						if f, ok := s.(Finisher); ok {
+							if viol = f.Finish(); viol != nil {
+								at = L - 1
+							}
 						}
 					}
 					s.Close()
